@@ -29,6 +29,11 @@ type c14dCase struct {
 var c14MsgPayloads = rapid.Custom(func(t *rapid.T) []byte {
 	m := new(client.Message)
 	vfutil.FillProto(t, reflect.ValueOf(m), "msg", 2)
+	// the ack inbox is where the server publishes to on behalf of the sender:
+	// strings that are not a NATS subject are a class of their own
+	if rapid.IntRange(0, 5).Draw(t, "hostile-inbox?") == 0 {
+		m.AckInbox = rapid.SampledFrom([]string{"a\r\nPING\r\n", "x\ny", " ", "a b 5", "a\tb", "a..b", ">", "\x00", "_INBOX.\r"}).Draw(t, "hostile-inbox")
+	}
 	b, err := pb.Marshal(m)
 	if err != nil {
 		panic(err)
